@@ -87,6 +87,15 @@ where
             self.lwe_encrypt_sk_tmp_bytes(res)
         );
 
+        // The limbs of the plaintext are copied into the body as they are: both must use the same radix.
+        assert_eq!(
+            pt.base2k(),
+            res.base2k(),
+            "pt.base2k(): {} != res.base2k(): {}",
+            pt.base2k(),
+            res.base2k()
+        );
+
         let base2k: usize = res.base2k().into();
 
         self.vec_znx_fill_uniform(base2k, &mut res.data, 0, source_xa);
